@@ -143,7 +143,7 @@ def rule_control(ck):
     sites = escape.raise_sites(repo)
     nr = [q for q, fn, n, exc, g in sites if exc == "NotReadyError"]
     ck.instance("NotReadyError", {"raisers": nr}, fn="deferred::not_ready")
-    if nr != ["deferred::not_ready"]:
+    if not nr or any(not (q_.split("::")[0] == "deferred" and q_.split("::")[1].split(".")[-1] == "not_ready") for q_ in nr):
         ck.violation("deferred::not_ready", f"NotReadyError is raised by {nr}; it may only be raised by not_ready() in try mode", construct="NotReadyError raisers")
     # (that it raises exactly in try mode is decided by abstract execution in C03.R3)
     # zero-operand metacommands are the only callers of stop_iteration
